@@ -277,6 +277,7 @@ func rulesC19(c *Ctx) {
 	}
 	c.Floor("C19.admin", c.CountRule("C19.admin"), 23)
 	recursionC19(c)
+	freshListC19(c)
 	c.Rule("C19.pure", "RequiredPrivileges of a statement and of its sources (and everything they call in the package) read no mutable package-level state: the privileges required are those of the statement as it is now, not those computed for it earlier (a memo keyed by node goes stale when the default database is filled in)")
 	pureRule(c, "C19.pure", "Sources.RequiredPrivileges", "SelectStatement.RequiredPrivileges", "ExplainStatement.RequiredPrivileges")
 }
@@ -707,4 +708,99 @@ func (p *Program) fieldPredicate(e ast.Expr) bool {
 		return false
 	}
 	return ok(e) && sawField
+}
+
+// freshListC19: every RequiredPrivileges answer is a list of its own, and the
+// walk over the sources is not cut short.
+func freshListC19(c *Ctx) {
+	p := c.P
+	c.Rule("C19.fresh", "no RequiredPrivileges method returns a package-level list: callers own what they get (they sort it, merge it, adjust entries), so a shared list edited by one caller — Admin cleared, a name filled in — is what every later statement of those kinds reports")
+	n := 0
+	for _, f := range p.allSSAFuncs() {
+		if f.Name() != "RequiredPrivileges" || f.Parent() != nil {
+			continue
+		}
+		for _, b := range f.Blocks {
+			ret, ok := b.Instrs[len(b.Instrs)-1].(*ssa.Return)
+			if !ok || len(ret.Results) == 0 {
+				continue
+			}
+			n++
+			if ld, ok := ret.Results[0].(*ssa.UnOp); ok {
+				if g, ok := ld.X.(*ssa.Global); ok {
+					c.Bad("C19.fresh", ssaFuncName(f)+": returns "+g.Name(), ret.Pos(), "the package-level list itself is handed out")
+				}
+			}
+		}
+	}
+	c.OK("C19.fresh", "returns examined", 0, fmt.Sprintf("%d", n))
+	c.Floor("C19.fresh", n, 40)
+
+	c.Rule("C19.allsources", "Sources.RequiredPrivileges leaves its loop over the sources only by an error return or at the end: a successful return from inside the loop (a short-cut for the first source) drops the privileges of every source after it")
+	sf := p.SSAFunc(p.Method("Sources", "RequiredPrivileges"))
+	if sf == nil {
+		c.Unk("C19.allsources", "Sources.RequiredPrivileges", 0, "anchor not found")
+		return
+	}
+	m := 0
+	for _, b := range sf.Blocks {
+		ret, ok := b.Instrs[len(b.Instrs)-1].(*ssa.Return)
+		if !ok || len(ret.Results) != 2 {
+			continue
+		}
+		if k, isC := ret.Results[1].(*ssa.Const); !isC || !k.IsNil() {
+			continue
+		}
+		m++
+		key := fmt.Sprintf("Sources.RequiredPrivileges: successful return #%d", m)
+		// which loop blocks lead (through blocks outside the loop) to this return?
+		onCycle := func(x *ssa.BasicBlock) bool {
+			for _, s2 := range x.Succs {
+				if s2 == x || reaches(s2, x, map[int]bool{}) {
+					return true
+				}
+			}
+			return false
+		}
+		var header *ssa.BasicBlock
+		for _, x := range sf.Blocks {
+			if !onCycle(x) {
+				continue
+			}
+			dom := true
+			for _, y := range sf.Blocks {
+				if onCycle(y) && !x.Dominates(y) {
+					dom = false
+				}
+			}
+			if dom {
+				header = x
+			}
+		}
+		inLoop := false
+		seen := map[*ssa.BasicBlock]bool{}
+		var back func(x *ssa.BasicBlock)
+		back = func(x *ssa.BasicBlock) {
+			if seen[x] {
+				return
+			}
+			seen[x] = true
+			for _, pr := range x.Preds {
+				if onCycle(pr) {
+					if pr != header {
+						inLoop = true
+					}
+					continue
+				}
+				back(pr)
+			}
+		}
+		back(b)
+		if inLoop {
+			c.Bad("C19.allsources", key, ret.Pos(), "a successful return is taken from inside the loop over the sources")
+		} else {
+			c.OK("C19.allsources", key, ret.Pos(), "after the loop")
+		}
+	}
+	c.Floor("C19.allsources", m, 1)
 }
